@@ -227,10 +227,57 @@ def mro_cases():
                     yield {"what": "mro", "cases": list(combo), "value": v, "debug": dbg}
 
 
+_E_SPEC = {"name": "E0", "base": "Enum", "members": [["A", "x"], ["B", 1], ["C", 0], ["D", 21]]}
+_IE_SPEC = {"name": "E1", "base": "IntEnum", "members": [["A", 1], ["B", 10]]}
+
+
+def _em(spec, n):
+    return {"$": "enum", "c": spec["name"], "n": n, "spec": spec}
+
+
+LITERAL_TABLE = [
+    [0], [1], [True], [False], [0, 1], [True, False], [0, True], [False, 1], [0, False], [1, True], [0, 1, False, True],
+    [True, 0, "a"], [False, 1, 2], [1, 2, 3, 4, 5], [True, 0, 2, 3, 4], [False, 1, "a", "b", "c"], [0, 1, False, True, "x"],
+    ["1", 1], ["a", None], [None, 0], [2, "2"],
+    [_em(_E_SPEC, "A")], [_em(_E_SPEC, "B"), 2], [_em(_E_SPEC, "A"), True], [_em(_E_SPEC, "D"), 1], [_em(_E_SPEC, "D"), 0, "z"],
+    [_em(_E_SPEC, "A"), _em(_E_SPEC, "D"), False, 2, 3, 4], [_em(_IE_SPEC, "B"), 0], [_em(_IE_SPEC, "B"), True, "q"],
+    [{"$": "bytes", "h": "6162"}], [{"$": "bytes", "h": "6162"}, 0], [{"$": "bytes", "h": ""}, True, 2],
+    [{"$": "bytes", "h": "00"}, _em(_E_SPEC, "A"), 1], [{"$": "bytes", "h": "00"}, 1, 2, 3, 4, False],
+    [{"$": "bytes", "h": "00"}, _em(_IE_SPEC, "B"), 2], [_em(_IE_SPEC, "A"), _em(_E_SPEC, "B"), "x"],
+]
+LITERAL_DATA = [0, 1, 2, True, False, None, 1.0, 0.0, "1", "0", "a", "x", "", "YWI=", "AA==", 21, 10, "21", "True",
+                {"$": "bytes", "h": "6162"}, {"$": "bytearray", "h": "00"}, {"$": "dec", "s": "1"}, {"$": "strsub", "s": "a"},
+                [1], {"$": "t", "v": [0]}]
+
+
+def literal_table_cases():
+    """Every Literal of a fixed list (bool/int look-alikes, enum and bytes members, more than four members) x every
+    datum of a fixed probe list; check_case evaluates each under the six mode combinations."""
+    for vals in LITERAL_TABLE:
+        for wrap in ("plain", "optional", "list"):
+            t = ["literal", vals]
+            for d in LITERAL_DATA:
+                if wrap == "plain":
+                    yield {"what": "load", "t": t, "datum": d, "ops": ["table"], "strict": True, "debug": 0}
+                elif wrap == "optional":
+                    yield {"what": "load", "t": ["optional", t, "optional"], "datum": d, "ops": ["table"], "strict": True,
+                           "debug": 0}
+                else:
+                    yield {"what": "load", "t": ["list", t, "typing"], "datum": [d, d], "ops": ["table"], "strict": True,
+                           "debug": 0}
+
+
 def explore(ctx: runner.Ctx):
     for i, c in enumerate(mro_cases()):
         if i % ctx.nshards == ctx.shard and (ctx.tier == "thorough" or i % 7 == ctx.base_seed % 7):
             check_case(ctx, c)
+    n_lit = 0
+    for i, c in enumerate(literal_table_cases()):
+        n_lit += 1
+        if i % ctx.nshards == ctx.shard:
+            runner.guarded(ctx, lambda k: check_case(ctx, k), c)
+    ctx.mark_exhaustive(f"Literal table: {len(LITERAL_TABLE)} Literals x {len(LITERAL_DATA)} probe data x (plain, Optional, "
+                        f"List) = {n_lit} cases x 6 mode combinations, each compared with the reference")
     if ctx.tier == "thorough":
         ctx.mark_exhaustive("union dumper MRO sub-check: all ordered 2- and 3-subsets of 8 classes x 9 values x 2 modes")
     ctx.given(st_case(), lambda c: check_case(ctx, c), ctx.budget(6000, 200000))
